@@ -83,6 +83,52 @@ example : ∃ s roots, applyOps (init 4096 8192, [])
     [.store [.int 1, .int 2, .int 3, .int 4, .int 5, .int 6, .int 7]] = .ok (s, roots) ∧ Inv s roots :=
   C09_inv_all_histories 4096 8192 _ (by omega) ⟨⟨[], rfl⟩, fun _ _ => trivial⟩ (by simp [storeCost])
 
+/-- Concrete evaluation of one store from the initial state (an object of two integers). -/
+theorem C09_example_store : ∃ s1, applyOp (init 4096 8192, []) (.store [.int 5, .int 7]) = .ok (s1, [4096]) ∧
+    s1.mem.get 4096 = 0 ∧ s1.mem.get (4096+16) = 0 ∧ s1.mem.get (4096+32) = 0 ∧ s1.mem.get (4096+48) = 0 := by
+  simp [applyOp, consumeRoots, ptrsOf, FieldRef.toField, storeObj]
+  rw [storeFields]
+  simp [restLength, fieldsPerBlock, BlockPosition.toNat, storeValues, storeValuesRev, storeValue, storeZeros,
+    storeZerosFrom, init, wr, rd, acquire, fstOff, sndOff, fieldOffset, blockSize, Mem.get_set, posOther]
+  rw [storeFields]
+  simp [Mem.get_set]
+
+/-- A well-formed history with a load: build an object of two integers, then consume it. -/
+theorem C09_example_wf : WfOps (init 4096 8192, []) [.store [.int 5, .int 7], .load 4096 [false, false]] := by
+  obtain ⟨s1, hst, h0, h16, h32, h48⟩ := C09_example_store
+  refine ⟨⟨[], rfl⟩, ?_⟩
+  intro st' hst'
+  rw [hst] at hst'
+  injection hst' with hst'
+  subst hst'
+  refine ⟨⟨by simp, ?_⟩, fun _ _ => trivial⟩
+  unfold LoadObjPre
+  simp only [List.cons_ne_nil, if_false, h0, if_true]
+  refine ⟨by omega, ?_⟩
+  rw [LoadPre]
+  simp only [List.cons_ne_nil, ↓reduceDIte, List.length_cons, List.length_nil, restLength, fieldsPerBlock,
+    BlockPosition.toNat]
+  simp only [Nat.zero_add, Nat.reduceAdd, Nat.sub_zero, Nat.reduceLeDiff, if_true, List.take_zero,
+    List.drop_zero]
+  refine ⟨by rw [LoadPre]; simp, ?_⟩
+  intro s1' vals1 blk hl
+  rw [loadFields_nil] at hl
+  injection hl with hl
+  injection hl with e1 e2
+  injection e2 with e2 e3
+  subst e1 e3
+  refine ⟨⟨?_, by simp⟩, by simp⟩
+  intro i hi hs
+  have : i = 0 ∨ i = 1 ∨ i = 2 := by simp [fieldsPerBlock, BlockPosition.toNat] at hi; omega
+  rcases this with rfl | rfl | rfl
+  · simpa [fstOff, fieldOffset] using h16
+  · simpa [fstOff, fieldOffset] using h32
+  · simpa [fstOff, fieldOffset] using h48
+
+example : ∃ s roots, applyOps (init 4096 8192, [])
+    [.store [.int 5, .int 7], .load 4096 [false, false]] = .ok (s, roots) ∧ Inv s roots :=
+  C09_inv_all_histories 4096 8192 _ (by omega) C09_example_wf (by simp [storeCost])
+
 /-- The hypotheses of the per-operation theorems are satisfiable: the initial state. -/
 example : ∃ s' b, acquire (init 4096 8192) = .ok (s', b) := by
   obtain ⟨s', _, _, _, _, h, _⟩ := acquire_spec (init_inv (base := 4096) (limit := 8192) (by omega) (by omega))
